@@ -200,3 +200,19 @@ def run(ck, prog, tier, load):
         ok = bool(rets) and all(e_has_field(e, r"graceful_shutdown_signal$") and not is_agg(e, r"Option::None$") for bb, e in rets)
         ck.ob("C06.signal-handed-to-every-connection", "ServiceConfig::graceful_shutdown", ok, b, rets[0][0] if rets else None,
               "graceful_shutdown() derives from the configured signal on every path (no configuration short-circuits it to None)")
+
+    # ---- a keep-alive time always yields a deadline (a zero time is a deadline that is already over, not "no deadline") --
+    def _always_some(b_, e, depth=2):
+        if is_agg(e, r"Option::Some$"):
+            return True
+        if isinstance(e, tuple) and e[0] == "call" and depth > 0:
+            cs = [x for x in prog.nbodies.get(norm(e[1] or ""), []) if x.crate == "actix_http"] if hasattr(prog, "nbodies") else []
+            return bool(cs) and all(rs and all(_always_some(x, r_, depth - 1) for _, r_ in rs) for x in cs for rs in [x.ret_exprs()])
+        return False
+    for kb in prog.find(r"^actix_http::config::ServiceConfig::keep_alive_deadline$"):
+        rs = [(bb, e) for bb, e in kb.ret_exprs() if any(c[0] == "discr" and lab == "Timeout" for c, lab, a in kb.guards(bb))]
+        ck.anchor("C06", len(rs), 1, "returns of keep_alive_deadline on the KeepAlive::Timeout edge")
+        for bb, e in rs:
+            ck.ob("C06.keepalive-timeout-yields-deadline", "ServiceConfig::keep_alive_deadline", _always_some(kb, e), kb, bb,
+                  "KeepAlive::Timeout(d) always yields Some(now + d): the idle timer is armed for every configured keep-alive time (zero included — it closes at once; None would leave the connection open for ever)")
+
